@@ -385,6 +385,15 @@ class Ops:
             return Const(r if isinstance(op, ast.Is) else not r)
         if isinstance(op, (ast.In, ast.NotIn)):
             return self.contains(b, a, isinstance(op, ast.NotIn), node)
+        # len(<set>) compared with 0: the emptiness question, named after the set so that rules (and repeated tests) can recognise it
+        for x, y, flip in ((a, b, False), (b, a, True)):
+            if isinstance(x, TV) and x.note == "len(set)" and x.origin and isinstance(y, Const) and y.v == 0 and not isinstance(y.v, bool):
+                tp = type(op)
+                if flip:
+                    tp = {ast.Lt: ast.Gt, ast.Gt: ast.Lt, ast.LtE: ast.GtE, ast.GtE: ast.LtE}.get(tp, tp)
+                pol = {ast.NotEq: True, ast.Gt: True, ast.Eq: False, ast.LtE: False}.get(tp)
+                if pol is not None:
+                    return TV(kind="pybool", dtype="Bool", note="nonempty?" + "+".join(sorted(x.origin)) + ("" if pol else "|neg"))
         # structural comparisons of python data
         if not isinstance(a, (TV, Const)) or not isinstance(b, (TV, Const)):
             return self.compare_data(a, op, b, node, env)
@@ -635,10 +644,12 @@ class Ops:
         return None
 
     # ---- iteration
-    def iterate(self, v, node, env):
+    def iterate(self, v, node, env, parts=False):
         if isinstance(v, ListV):
             if v.items is not None:
                 return ("concrete", list(v.items))
+            if parts and v.tail and v.head is not None:
+                return ("parts", v.head, {"over": v.over, "order": v.order, "symmetric": False, "src": v}, list(v.tail))
             return ("abstract", v.elem, {"over": v.over, "order": v.order, "symmetric": v.over in ("R", "Rblocks"), "src": v})
         if isinstance(v, SetV):
             if v.items is not None:
